@@ -122,7 +122,7 @@ def r_C23(root):
     for n in load(root, L).body:
         if isinstance(n, ast.FunctionDef) and len(n.body) >= 1 and isinstance(n.body[-1], ast.Return):
             v = n.body[-1].value
-            if isinstance(v, ast.Call) and getattr(v.func, "id", "") == "_": terminals.add(n.name)
+            if isinstance(v, ast.Call) and getattr(v.func, "id", "") in ("_", "RegExMatch"): terminals.add(n.name)
     vis = find(load(root, L), "TextXVisitor")
     for f in [f for f in vis.body if isinstance(f, ast.FunctionDef) and f.name.startswith("visit_")]:
         rule = f.name[6:]
